@@ -233,6 +233,8 @@ class CHECK(Check):
             keep = histories.select_quick(self.hcorpus, self.href)
             self.hcorpus = [self.hcorpus[i] for i in keep]
             self.href = [self.href[i] for i in keep]
+        self.rops = histories.render_ops()
+        self.rref = histories.render_references(self.rops)
         # warm imports (SLY builds the tables at import time; that must not run under the scheduler)
         env = Env()
         self.reference = {}
@@ -267,6 +269,8 @@ class CHECK(Check):
         for i in range(len(self.hcorpus)):
             out.append(('pairs', 'process', i))
             out.append(('pairs', 'reuse', i))
+        for i in range(len(self.rops)):
+            out.append(('rpairs', i))
         return out
 
     # ------------------------------------------------------------------ schedules
@@ -282,6 +286,32 @@ class CHECK(Check):
             return self.run_free(res, case[1])
         if case[0] == 'pairs':
             return self.run_pairs(res, case[1], case[2])
+        if case[0] == 'rpairs':
+            return self.run_rpairs(res, case[1])
+
+    def run_rpairs(self, res, i):
+        """all two-step renderer histories with first = rops[i]: new renderer objects for both calls (by dialect name and by dialect class), and,
+        for the same dialect, one renderer object used twice"""
+        from vf import histories
+        first = self.rops[i]
+        bad = None
+        for j, second in enumerate(self.rops):
+            for shared in ((False, True) if first[0] == second[0] else (False,)):
+                r = histories.make_render(first[0]) if shared else None
+                o1 = histories.observe_render(first, r)
+                o2 = histories.observe_render(second, r)
+                res.count('render_pair_histories')
+                if bad is None and tuple(o1) != tuple(self.rref[i]):
+                    bad = ('first', shared, i, i, o1, self.rref[i])
+                if bad is None and tuple(o2) != tuple(self.rref[j]):
+                    bad = ('second', shared, i, j, o2, self.rref[j])
+        res.key(('rpairs', i))
+        if bad is not None:
+            which, shared, i, j, got, want = bad
+            hist = [self.rops[i]] if which == 'first' else [self.rops[i], self.rops[j]]
+            res.violation(f'render-history-changes-result|{"shared-renderer" if shared else "new-renderers"}|{hist[-1][0]}',
+                          f'after rendering {hist[:-1]!r} (and whatever this worker rendered before) rendering {hist[-1]!r} gives {str(got)[:300]!r} instead of {str(want)[:300]!r}')
+        return res
 
     def run_pairs(self, res, kind, i):
         """all two-step histories (first = corpus[i], second = every corpus entry): process history with fresh planners, or one reused
@@ -491,7 +521,7 @@ class CHECK(Check):
                 'schedules_explored': c.get('schedules', 0), 'max_scheduling_points_in_one_execution': max(agg['cover'].get('max_points', {0})),
                 'distinct_thread_outcomes': len(agg['cover'].get('distinct_outcomes', ())),
                 'history_call_pairs_covered': len(agg['cover'].get('history_edges', ())),
-                'two_step_histories_over_planner_corpus': c.get('pair_histories', 0), 'planner_corpus_size': len(self.hcorpus),
+                'two_step_histories_over_planner_corpus': c.get('pair_histories', 0), 'two_step_renderer_histories': c.get('render_pair_histories', 0), 'planner_corpus_size': len(self.hcorpus),
                 'globals_changed_by_calls': sorted(str(x) for x in agg['cover'].get('globals_changed_by_a_call', ()))[:40],
                 'hash_seed_sweep_is_exhaustive': False, 'free_running_pass_is_sampling': True,
                 'operations': list(OPS), 'pairs': [list(p) for p in PAIRS],
